@@ -12,6 +12,7 @@ pub fn registry() -> Vec<Box<dyn FamilyDyn>> {
         Box::new(FamRunner::new(crate::fam_mpsc::program_set)),
         Box::new(FamRunner::new(crate::fam_thread::program_set)),
         Box::new(FamRunner::new(crate::fam_sem::program_set)),
+        Box::new(FamRunner::new(crate::fam_async::program_set)),
     ]
 }
 
@@ -190,6 +191,7 @@ pub fn run_check(id: &str, tier: Tier) -> ! {
         "C05" => c05(&ctx),
         "C07" => conformance(&ctx, &["thread"], &["thread-local life cycle is judged by a monitor over logged init/drop events (expected sequence computed from the program: lazy init on first use, destruction in initialisation order, a destructor touching a destroyed key sees AccessError, a key first touched during destruction is initialised then and destroyed later)"]),
         "C18" => conformance(&ctx, &["sem"], &["reference model: counter + FIFO queue with grant-in-the-releasing-step (fair) / bag of waiters (unfair), Appendix A; the permit ledger avail + acquired + granted-pending = initial + released is asserted in every model state and the implementation's available_permits() must agree with it wherever a program observes it"]),
+        "C17" => conformance(&ctx, &["async"], &["executor model: a task waiting on a leaf future is enabled iff the flag is set; JoinHandle await yields the output or Cancelled; abort may take effect at any later poll (loose); detached tasks are cut off when the last attached task finishes; future-drop events are checked by a monitor"]),
         "C06" => conformance(&ctx, &["mpsc"], &["reference model: FIFO channel with FIFO queue of blocked senders (Appendix A); rendezvous = hand-off only to a waiting receiver, as the property states"]),
         _ => {
             eprintln!("MACHINERY-ERROR: no check registered for {}", id);
